@@ -37,7 +37,8 @@ ASSUMPTIONS = [
     'the in-memory matrix handed to anndata is the ground truth',
 ]
 
-DTYPES = ['float32', 'float64', 'int32', 'int64', 'uint8', 'uint16']
+DTYPES = ['float32', 'float64', 'int32', 'int64', 'uint8', 'uint16',
+          'uint64', 'int16']
 
 
 def gen_cases(tier, seed):
@@ -348,13 +349,35 @@ def random_matrix(rng):
         mask[int(rng.integers(shape[0]))] = False       # empty row
     if rng.random() < 0.5 and shape[1] > 1:
         mask[:, int(rng.integers(shape[1]))] = False    # empty column
-    hi = {'uint8': 255, 'uint16': 65535}.get(dtype, 100000)
+    hi = {'uint8': 255, 'uint16': 65535, 'int16': 32767}.get(dtype, 100000)
     vals = rng.integers(1, hi + 1, size=shape)
     M = np.zeros(shape, dtype=dtype)
     if np.dtype(dtype).kind == 'f':
         M[mask] = (vals[mask] + rng.random(int(mask.sum()))).astype(dtype)
     else:
         M[mask] = vals[mask].astype(dtype)
+    if rng.random() < 0.4 and mask.any():
+        # values at the edges of the stored type: they survive only if no
+        # step of the read path goes through another numeric type
+        dt = np.dtype(dtype)
+        if dt.kind == 'f':
+            fi = np.finfo(dt)
+            ext = [fi.max, -fi.max, fi.tiny, fi.smallest_subnormal,
+                   1.0 + fi.eps, -(1.0 + fi.eps), 1.0 / 3.0]
+        else:
+            ii = np.iinfo(dt)
+            ext = [ii.max, ii.max - 1, ii.min, ii.min + 1]
+            if dt.itemsize == 8:
+                ext += [2 ** 53 + 1, 2 ** 62 + 12345]
+                if dt.kind == 'i':
+                    ext += [-(2 ** 53) - 1]
+            if dt.itemsize >= 4:
+                ext += [2 ** 24 + 1]
+            ext = [e for e in ext if e != 0]
+        rr, cc = np.where(mask)
+        for e in ext:
+            k = int(rng.integers(len(rr)))
+            M[rr[k], cc[k]] = np.array([e]).astype(dt)[0]
     return M, dtype
 
 
